@@ -555,7 +555,9 @@ def expanded_lengths(fmt, args):
                 v = stars[si] if si < len(stars) else 0
                 si += 1
                 if v < 0 and fmt[j - 1] == 0x2e:
-                    ln -= 1
+                    # a negative '*' precision is dropped together with its '.', but the decoder has stored the
+                    # '.' (and run its room check) before it reads the value: the '.' counts (Lean: Dir.miniNeed)
+                    pass
                 else:
                     ln += len(str(v))
             else:
